@@ -28,6 +28,13 @@ CLAIMED["C06"] = dict(
     note=TRUST + " Generic enums/structs are outside the model.",
 )
 
+CLAIMED["C05"] = dict(
+    technique="Coq proof that the resolver model (one flat env cloned at scope entry, threaded elsewhere) equals the scope-stack semantics of the event stream, for all programs; differential correspondence of the model with the real NameResolution through the HIR, inside coqc",
+    text="resolve_is_lexical is proved by mutual induction for every function body over let/tuple patterns/blocks/if/while/match arms/closures/n-ary nodes (no axioms). The model is tied to name_resolution.rs by resolving exhaustive two-level nestings and random bodies with the real resolver and comparing every binder id and every use's resolution (local id / definition / builtin / unresolved) with the model and, independently, with the specification.",
+    design_ref="DESIGN.md §4 C05",
+    note=TRUST + " Multi-segment paths, constructors, struct literals and the typer's own scope handling are outside the model.",
+)
+
 NOT_YET = {}
 
 def main():
